@@ -81,3 +81,22 @@ Print Assumptions C02_scenario_no_relay_without_own_query.
 
 Example C02_direct_is_not_vacuous := Net_props.C02_direct_nonvacuous.
 Example C02_multi_hop_is_not_vacuous := Net_props.C02_multi_hop_nonvacuous.
+
+(* ---- quiet really means quiet (package G, Net_proofs22): a quiet reachable net stays quiet under a further fair round, the
+   round is silent and `settle` is the identity on it.  NOT proved: that `settle`'s explicit fuel always suffices
+   (`settle_terminates`); the theorems above therefore keep `quietb (fst (settle s)) = true` as a hypothesis checked on the
+   result (58 000 random runs and chains up to 10 hops always ended quiet, with slack >= 22 rounds). *)
+From BS Require Import Net Net_proofs Net_proofs2 Net_proofs5 Net_proofs7 Net_proofs9 Net_proofs10 Net_proofs13 Net_props Net_proofs14 Net_proofs15 Net_proofs16 Net_proofs17 Net_proofs18 Net_proofs19 Net_proofs20 Net_proofs21 Net_proofs22 Server Server_inv Net_props2.
+From Coq Require Import ZArith Lia.
+Open Scope N_scope.
+
+Theorem settle_terminates_partial :
+  forall (Sz : N) (Hh : hash_fn),
+  32 <= Sz ->
+  forall s : net,
+  net_ok Sz Hh s ->
+  quietb s = true ->
+  quietb (fst (round Sz Hh s)) = true /\ snd (round Sz Hh s) = [] /\ settle Sz Hh s = (s, []).
+Proof. exact (@Net_props2.settle_terminates_partial). Qed.
+
+Print Assumptions settle_terminates_partial.
